@@ -21,6 +21,8 @@ seeds = sorted(glob.glob("/verif/seeded/C*"))
 if len(sys.argv) > 1:
     seeds = [s for s in seeds if any(a in s for a in sys.argv[1:])]
 rows = []
+def others(d):
+    return ", ".join(k + "(" + "/".join(v) + ")" for k, v in sorted(d.items()))
 with concurrent.futures.ThreadPoolExecutor(max_workers=4) as ex:
     for meta, flagged in ex.map(one, seeds):
         own = meta["property"]
@@ -30,5 +32,5 @@ if len(sys.argv) == 1:
     with open("/verif/seeded/RESULTS.md", "w") as f:
         f.write("# Seeded changes vs. checks\n\nEach change was produced by an independent sub-agent from the property text alone, confirmed (builds, pinned suite unchanged, demo fails with / passes without), then every registered quick check was run against a scratch copy of /repo with the patch applied. `own check` = the check of the property the change was written to break.\n\n| id | property | own check | rules that fired (own property) | other property checks that fired | change |\n|---|---|---|---|---|---|\n")
         for r in rows:
-            f.write(f"| {r[0]} | {r[1]} | {'caught' if r[2] else '**missed**'} | {', '.join(r[3])} | {', '.join(f'{k}({'/'.join(v)})' for k, v in sorted(r[4].items()))} | {r[5]} |\n")
+            f.write(f"| {r[0]} | {r[1]} | {'caught' if r[2] else '**missed**'} | {', '.join(r[3])} | {others(r[4])} | {r[5]} |\n")
         f.write(f"\n{sum(1 for r in rows if r[2])} of {len(rows)} caught by the check of the property they break.\n")
